@@ -43,6 +43,7 @@ type Job struct {
 	Repeat   int     `json:"repeat"` // hash mode: execute each seed this many times in-process
 	StepCap  int64   `json:"step_cap"`
 	FirstIdx int     `json:"first_index"`
+	OnlyCell int     `json:"only_cell"` // >0: run just this floor cell (stored +1)
 }
 
 type Violation struct {
@@ -110,8 +111,23 @@ func Main() int {
 	return 0
 }
 
+// progress records which run is in flight, so that the orchestrator can
+// attribute a fatal crash of the worker process to a seed.
+var progressFile *os.File
+
+func progress(kind string, n int) {
+	if progressFile == nil {
+		return
+	}
+	msg := fmt.Sprintf("%s %d\n%40s", kind, n, "")
+	progressFile.WriteAt([]byte(msg[:40]), 0)
+}
+
 func run(job Job, eng Engine) *Output {
 	start := time.Now()
+	if job.Out != "" && job.Mode == "search" {
+		progressFile, _ = os.Create(job.Out + ".progress")
+	}
 	out := &Output{Prop: job.Prop, Worker: job.Worker, Counts: map[string]int64{}}
 	keys := map[uint64]struct{}{}
 	sched := map[uint64]struct{}{}
@@ -230,6 +246,15 @@ func run(job Job, eng Engine) *Output {
 		return out
 	}
 
+	if job.OnlyCell > 0 {
+		c := job.OnlyCell - 1
+		runSeed := simrt.Derive(job.Seed, 0xf100, uint64(c))
+		progress("cell", c)
+		handle(eng.Run(cfgFor(runSeed), opts(c, false)), runSeed, -1, c)
+		out.Probes = simrt.ProbeSnapshot()
+		out.WallS = time.Since(start).Seconds()
+		return out
+	}
 	// systematic floor
 	if job.Floor && eng.Cells != nil {
 		n := eng.Cells(job.Tier)
@@ -238,6 +263,7 @@ func run(job Job, eng Engine) *Output {
 				break
 			}
 			runSeed := simrt.Derive(job.Seed, 0xf100, uint64(c))
+			progress("cell", c)
 			r := eng.Run(cfgFor(runSeed), opts(c, len(out.Samples) < job.Samples && c%7 == 3))
 			if r.Sample != nil && len(out.Samples) < job.Samples {
 				out.Samples = append(out.Samples, r.Sample)
@@ -258,6 +284,7 @@ func run(job Job, eng Engine) *Output {
 		idx := job.FirstIdx + i
 		runSeed := simrt.Derive(job.Seed, uint64(idx))
 		wantSample := len(out.Samples) < job.Samples && (i/job.Stride)%5 == 1
+		progress("index", idx)
 		r := eng.Run(cfgFor(runSeed), opts(-1, wantSample))
 		if r.Sample != nil && len(out.Samples) < job.Samples {
 			out.Samples = append(out.Samples, r.Sample)
